@@ -14,7 +14,7 @@ LEVEL = ("decides: a solution handed out is the snapshot taken while the solver 
          "for backtrack events and vice versa, one that overrides notify registers variables (S5); event "
          "routing tables of the watch lists and of the domain mutators (S5b); posting a predicate is never "
          "silently dropped (shared with C02-U5b); API returns happen at decision level 0 (typestate). "
-         "Does not decide that any propagator detects every violation once its variables are fixed")
+         "a watcher registration is skipped only for an identical (propagator, local id) pair (S5c); affine views translate bounds/predicates with the right inner operation, rounding and divisibility guard (S8–S10, shared with C12); evaluate_predicate and Predicate negation are exact, decided on all domains of a 5-value universe (S11/S12); the nogood propagator looks at exactly the watchers whose predicate became true and never drops an unvisited watcher (S13/S14, WAKE/READD decided on all old⊇new domain pairs). Does not decide that any propagator detects every violation once its variables are fixed")
 TECHNIQUE = "static analysis: must-pass / dominance / paired-set / override⇒declare / table rules over rustc MIR"
 
 
